@@ -496,6 +496,109 @@ fn check_overlap(c: &OverlapCase, ctx: &Ctx) -> Outcome {
     }
 }
 
+// ---- two substitutions closer than 2k in otherwise repeat-free sequence ----
+// The recorded finding F11 concerns inputs with many overlapping differences or repeated (k-1)-mers.
+// A single pair of close substitutions is the simplest overlapping input; there the unchanged tree is
+// deterministic (measured: see DESIGN 4, F11), so run-to-run differences on such inputs are reported.
+
+#[derive(Clone, Debug, Serialize, Deserialize)]
+pub struct PairCase {
+    pub k: usize,
+    pub n_samples: usize,
+    pub material: Vec<u8>,
+    pub lead: u16,
+    pub dist: u16,
+    pub tail: u16,
+    /// allele rotation per sample (cyclic) at the two sites
+    pub rot_a: Vec<u8>,
+    pub rot_b: Vec<u8>,
+    pub orient: Vec<bool>,
+    pub threads: Vec<u8>,
+}
+
+fn pair_strategy() -> BoxedStrategy<PairCase> {
+    (
+        prop::sample::select(vec![9usize, 11, 15, 17, 21, 31]),
+        3usize..=6,
+        proptest::collection::vec(0u8..4, 200..400),
+        any::<u16>(),
+        any::<u16>(),
+        any::<u16>(),
+        proptest::collection::vec(0u8..3, 3..7),
+        proptest::collection::vec(0u8..3, 3..7),
+        proptest::collection::vec(any::<bool>(), 1..6),
+        proptest::collection::vec(prop::sample::select(vec![1u8, 2, 4, 8]), 2..=2),
+    )
+        .prop_map(|(k, n_samples, material, lead, dist, tail, rot_a, rot_b, orient, threads)| PairCase { k, n_samples, material, lead, dist, tail, rot_a, rot_b, orient, threads })
+        .boxed()
+}
+
+fn pair_materialise(c: &PairCase) -> Result<(Vec<u8>, usize, usize, Vec<Sample>), String> {
+    let k = c.k;
+    let d = 1 + gen::idx(c.dist, 2 * k - 1); // 1 ..= 2k-1
+    let p1 = 2 * k + gen::idx(c.lead, k);
+    let p2 = p1 + d;
+    let len = p2 + 2 * k + gen::idx(c.tail, k);
+    let mut seen = std::collections::HashSet::new();
+    let anc = gen::unique_seq(&c.material, len, k - 1, false, &mut seen).ok_or("no unique extension")?;
+    let mut fwd: Vec<Vec<u8>> = Vec::new();
+    for j in 0..c.n_samples {
+        let mut s = anc.clone();
+        for (p, rots) in [(p1, &c.rot_a), (p2, &c.rot_b)] {
+            let r = rots[j % rots.len()] as usize;
+            let ai = model::BASES.iter().position(|b| *b == s[p]).unwrap();
+            s[p] = model::BASES[(ai + r) % 4];
+        }
+        fwd.push(s);
+    }
+    // both sites must vary, with different sample patterns
+    let pat = |p: usize| fwd.iter().map(|s| s[p]).collect::<Vec<u8>>();
+    let (a, b) = (pat(p1), pat(p2));
+    if a.iter().all(|x| *x == a[0]) || b.iter().all(|x| *x == b[0]) {
+        return Err("a site is constant".into());
+    }
+    // every sample must keep unique (k-1)-mers on both strands; a word may recur across samples only at the same place
+    let w = k - 1;
+    let items: Vec<(Vec<u8>, Vec<u64>)> = fwd.iter().map(|s| (s.clone(), (0..=(s.len() - w)).map(|i| i as u64).collect())).collect();
+    if !gen::words_consistent(&items, w, false) {
+        return Err("substitution creates a repeated word".into());
+    }
+    let samples: Vec<Sample> = fwd.iter().enumerate().map(|(j, s)| (gen::set_sample_name(j), vec![if c.orient[j % c.orient.len()] { model::revcomp(s) } else { s.clone() }])).collect();
+    Ok((anc, p1, p2, samples))
+}
+
+fn check_pair(c: &PairCase, ctx: &Ctx) -> Outcome {
+    let (anc, p1, p2, samples) = match pair_materialise(c) {
+        Ok(x) => x,
+        Err(e) => return Outcome::Reject(e),
+    };
+    let dir = ctx.case_dir();
+    let r: Result<(), Outcome> = (|| {
+        must_ok(&build(ctx, &dir, "x", &samples, c.k, true, 1), "ska build")?;
+        let base = run_lo(ctx, &dir, false, &[], 1, "t1")?;
+        if base.failed.is_some() {
+            return Err(Outcome::Fail(format!("ska lo failed: {:?}", base.failed)));
+        }
+        for (i, t) in [1u8, c.threads[0], c.threads[1], 1, c.threads[0]].iter().enumerate() {
+            let res = run_lo(ctx, &dir, false, &[], *t, &format!("r{i}"))?;
+            if res != base {
+                return Err(Outcome::Fail(format!("ska lo --threads {t} (run {}) differs from the first --threads 1 run: {}", i + 2, lo_diff(&base, &res))));
+            }
+        }
+        Ok(())
+    })();
+    ctx.done(&dir);
+    match r {
+        Err(Outcome::Fail(msg)) => Outcome::Fail(format!("k={} two substitutions {} bases apart (positions {p1}, {p2}) ancestor={} samples={}: {msg}", c.k, p2 - p1, lossy(&anc), super::common::show_samples(&samples))),
+        Err(o) => o,
+        Ok(()) => {
+            let d = p2 - p1;
+            let cl = vec![if d < c.k - 1 { "distance<k-1" } else if d == c.k - 1 { "distance=k-1" } else if d == c.k { "distance=k" } else { "k<distance<2k" }];
+            pass(true, key_of(&(c.k, &samples, &c.threads)), cl)
+        }
+    }
+}
+
 fn post(rt: &mut Runtime) {
     // the saved reproducer of the recorded finding F11
     let known = known_overlap_finding(&rt.verif_root);
@@ -543,6 +646,7 @@ fn stages(tier: Tier) -> Vec<Box<dyn Stage>> {
     vec![
         gen_stage_show("pipeline", RULE, tier.pick(320, 4000), 40, case_strategy, check, |c| { let (k, _a, s) = materialise(c); json!({"cmd": format!("{:?}", c.cmd), "k": k, "samples": s.len(), "threads": c.threads, "first_sample": lossy(&s[0].1[0])}) }),
         gen_stage_show("lo_isolated", "C17's isolated-variant inputs (multi-allelic sites included), ska lo with and without -r, --threads 1 twice and two counts from {2,3,4,8}, one repeated. Oracle: with a reference snps.fas, snps.vcf and pseudo-genomes byte-identical; without, the same column multiset up to complement and the same names; indel records equal as a set after removing strand and REF/ALT presentation. Every case non-trivial.", tier.pick(320, 4000), 40, lo_strategy, check_lo, |c| json!({"k": c.inner.k, "with_ref": c.inner.with_ref, "threads": c.threads, "sites": c.inner.sites.len(), "samples": c.inner.n_samples})),
+        gen_stage_show("lo_close_pairs", "exactly two substitutions 1..2k-1 bases apart (every distance, k-1 and k included) in otherwise repeat-free sequence, 3-6 samples with different allele patterns at the two sites, random orientation, k in {9,11,15,17,21,31}; reference-free ska lo six times (--threads 1 three times, two counts from {1,2,4,8}, one repeated). Oracle: same column multiset up to complement and same indel record set in every run (the simplest overlapping inputs; outside the class of the recorded finding, which needs more than two close differences or repeated words). Every case non-trivial.", tier.pick(320, 4000), 40, pair_strategy, check_pair, |c| json!({"k": c.k, "samples": c.n_samples, "distance": 1 + gen::idx(c.dist, 2 * c.k - 1), "threads": c.threads})),
         gen_stage_show("lo_overlapping", "overlapping-variant inputs (random substitutions/indels, close variants): run-to-run differences belong to the recorded finding lo-overlap-hash-order and are counted, not reported (reported as VIOLATION if known-findings.txt does not list it); the exit status must still not depend on the thread count.", tier.pick(160, 2000), 40, overlap_strategy, check_overlap, |c| json!({"k": c.inner.k, "with_ref": c.with_ref, "samples": c.inner.samples.len()})),
     ]
 }
